@@ -1076,7 +1076,7 @@ func genC18(g *G, sc *Scenario, tier string) {
 	}
 	chain = append(chain, "main")
 	sc.Datasets = append(append([]string{}, chain...), "out")
-	// ids per dataset are disjoint: dep d*, linkN lN_*, main m*
+	// ids per dataset are disjoint: dep d*, linkN lN_*, main m*, second dependency x*
 	ids := map[string][]string{}
 	for _, ds := range chain {
 		stem := ds[:1]
@@ -1091,31 +1091,57 @@ func genC18(g *G, sc *Scenario, tier string) {
 		from, to string // dataset holding the referencing entity, dataset of the target
 		pred     string
 	}
-	edges := make([]edge, hops)
+	var edges []edge
 	for i := 0; i < hops; i++ {
 		inv := g.P(0.5)
 		pred := fmt.Sprintf("%sj%d", MkS, i)
 		joins = append(joins, map[string]any{"dataset": chain[i+1], "predicate": "PLACEHOLDER" + fmt.Sprint(i), "_pred": pred, "inverse": inv})
 		if inv {
-			edges[i] = edge{from: chain[i+1], to: chain[i], pred: pred} // next-level entity references current-level entity
+			edges = append(edges, edge{from: chain[i+1], to: chain[i], pred: pred}) // next-level entity references current-level entity
 		} else {
-			edges[i] = edge{from: chain[i], to: chain[i+1], pred: pred}
+			edges = append(edges, edge{from: chain[i], to: chain[i+1], pred: pred})
 		}
 	}
+	deps := []any{map[string]any{"dataset": "dep", "joins": joins}}
+	writable := append([]string{}, chain...)
+	endpoints := []string{"dep", "main"} // datasets a client writes to while a run is under way
+	if g.P(0.5) {
+		// a second dependency, one hop from the main dataset
+		sc.Datasets = append(sc.Datasets, "dep2")
+		ids["dep2"] = poolNames(MkE, "x", g.Range(2, 3))
+		inv := g.P(0.5)
+		pred := MkS + "k0"
+		d2 := map[string]any{"dataset": "dep2", "joins": []any{map[string]any{"dataset": "main", "predicate": "PLACEHOLDERk", "_pred": pred, "inverse": inv}}}
+		if inv {
+			edges = append(edges, edge{from: "main", to: "dep2", pred: pred})
+		} else {
+			edges = append(edges, edge{from: "dep2", to: "main", pred: pred})
+		}
+		if g.P(0.5) {
+			deps = append(deps, d2)
+		} else {
+			deps = append([]any{d2}, deps...)
+		}
+		writable = append(writable, "dep2")
+		endpoints = append(endpoints, "dep2", "dep2")
+	}
 	batch := g.Range(1, 4)
-	src := map[string]any{"Type": "MultiSource", "Name": "main", "Dependencies": []any{map[string]any{"dataset": "dep", "joins": joins}}}
+	src := map[string]any{"Type": "MultiSource", "Name": "main", "Dependencies": deps}
 	cfg := jobConfig("job1", src, map[string]any{"Type": "DatasetSink", "Name": "out"}, nil, "incremental", batch)
 	sc.Ops = append(sc.Ops, Op{K: "addJob", M: cfg})
-	// which predicate an entity of a dataset carries (as referencing side)
-	predOf := map[string]edge{}
+	// which predicates an entity of a dataset carries (as referencing side)
+	predOf := map[string][]edge{}
 	for _, e := range edges {
-		predOf[e.from] = e
+		predOf[e.from] = append(predOf[e.from], e)
 	}
 	version := 0
 	mk := func(ds, id string) Ent {
 		version++
 		e := Ent{"id": id, "props": map[string]any{MkS + "v": float64(version)}, "refs": map[string]any{}}
-		if ed, ok := predOf[ds]; ok && g.P(0.8) {
+		for _, ed := range predOf[ds] {
+			if !g.P(0.8) {
+				continue
+			}
 			n := g.Range(1, 2)
 			var targets []any
 			seen := map[string]bool{}
@@ -1138,7 +1164,7 @@ func genC18(g *G, sc *Scenario, tier string) {
 		return e
 	}
 	// initial population, then the first (full) run
-	for _, ds := range chain {
+	for _, ds := range writable {
 		var ents []Ent
 		for _, id := range ids[ds] {
 			if g.P(0.85) {
@@ -1152,9 +1178,9 @@ func genC18(g *G, sc *Scenario, tier string) {
 	sc.Ops = append(sc.Ops, Op{K: "runFix", S: "job1"})
 	for rd := g.Range(1, 4); rd > 0; rd-- {
 		for w := g.Range(1, 3); w > 0; w-- {
-			ds := g.Pick(chain)
+			ds := g.Pick(writable)
 			if g.P(0.5) {
-				ds = "dep"
+				ds = g.Pick([]string{"dep", writable[len(writable)-1]})
 			}
 			var ents []Ent
 			for k := g.Range(1, 2); k > 0; k-- {
@@ -1163,8 +1189,17 @@ func genC18(g *G, sc *Scenario, tier string) {
 			sc.Ops = append(sc.Ops, Op{K: "batch", DS: ds, Ents: ents})
 		}
 		spec := map[string]any{}
-		if g.P(0.2) {
+		if g.P(0.25) {
 			spec["sinkFailAt"] = g.Range(1, 3)
+		}
+		if g.P(0.35) {
+			// a client writes between two deliveries of the run
+			ds := g.Pick(endpoints)
+			var ents []Ent
+			for k := g.Range(1, 2); k > 0; k-- {
+				ents = append(ents, mk(ds, g.Pick(ids[ds])))
+			}
+			spec["midWrite"] = map[string]any{"at": g.Range(1, 2), "ds": ds, "ents": ents}
 		}
 		sc.Ops = append(sc.Ops, Op{K: "runFix", S: "job1", M: spec})
 	}
